@@ -21,7 +21,7 @@ MANIFEST = {
     "text": "PARTIAL (two excluded input classes, reported as findings). Proved for ALL inputs: list_summands(A,b,r) sums to A*r (from the "
     "TRANSLATED arithmetic); for every constructor argument set, every list of consumed stream datums and every join method / chunk shape / "
     "multiplier, whenever `chunks` returns it has one entry per dimension of `shape` and each entry sums to that dimension, with all chunk "
-    "sizes positive and bounded by chunk_shape; `chunks` fails only with the documented ValueError (chunk_shape longer than shape) or -- the "
+    "sizes positive and at most chunk_shape's entry; `chunks` fails only with the documented ValueError (chunk_shape longer than shape) or -- the "
     "excluded class -- an IndexError for concat + join_chunks=False + scalar datum; num_rows and the seq_num->index map after any datum "
     "list (last writer wins; every consumed seq_num maps to its row for disjoint seq ranges); concatenate_stream_datums accepts only "
     "contiguous same-descriptor same-resource sets and returns the hull (min start, max stop, width = sum of widths, seq_num hull for "
@@ -488,13 +488,19 @@ def oracle_cons(case, obs):
         if isinstance(ch, dict):
             if ch["err"] == "ValueError" and len(obs["chunk_shape"]) > len(sh):
                 continue  # the documented rejection: chunk_shape longer than shape
-            if ch["err"] == "IndexError" and obs["join"] == "concat" and not obs["join_chunks"] and obs["datum_shape"] == [] and obs["chunk_shape"]:
+            nojoin = ch["err"] == "IndexError" and obs["join"] == "concat" and not obs["join_chunks"] and obs["chunk_shape"] and not case.get("multiplier")
+            if nojoin and case["shape"] == []:
                 sig = "chunks:IndexError:concat-without-join_chunks:scalar-datum"
+            elif nojoin and case["shape"] == [1] and case["classJoin"] == "stack":
+                # same defect, reached through the constructor's `(1,) -> ()` rule for classes that stack by default
+                sig = "chunks:IndexError:concat-without-join_chunks:shape-(1,)-squeezed-by-stack-default"
             else:
                 sig = f"chunks:raises-{ch['err']}:{cls}"
             bad.append((sig, f"chunks raises {ch['err']} although shape is {tuple(sh)} (datum_shape {tuple(obs['datum_shape'])}, chunk_shape {tuple(obs['chunk_shape'])}, {cls}, num_rows {snap['num_rows']})"))
             continue
         ok = len(ch) == len(sh) and all(sum(c) == s for c, s in zip(ch, sh)) and all(c == [0] or (c and all(x > 0 for x in c)) for c in ch)
+        if ok and any(x > b for c, b in zip(ch, obs["chunk_shape"]) for x in c):
+            bad.append((f"chunks:larger-than-chunk_shape:{cls}", f"chunks {ch} exceed chunk_shape {tuple(obs['chunk_shape'])} (shape {tuple(sh)}, datum_shape {tuple(obs['datum_shape'])}, {cls}, num_rows {snap['num_rows']})"))
         if not ok:
             dim = next((k for k, (c, s) in enumerate(zip(ch, sh)) if sum(c) != s), "len")
             bad.append((f"chunks:not-a-chunking-of-shape:{cls}:dim{'0' if dim == 0 else 'N' if dim != 'len' else '-count'}", f"shape {tuple(sh)} but chunks {ch} (datum_shape {tuple(obs['datum_shape'])}, chunk_shape {tuple(obs['chunk_shape'])}, {cls}, num_rows {snap['num_rows']})"))
